@@ -548,6 +548,8 @@ impl Writer {
           sequence_number,
         } => {
           // Signal that there is now space in the DataWriter to Writer queue
+          #[cfg(rustdds_verif)]
+          crate::verif::sched::point("Writer.pwc.after_pop");
           {
             self
               .writer_command_receiver_waker
@@ -557,6 +559,8 @@ impl Writer {
               .map(|w| w.wake_by_ref());
           }
 
+          #[cfg(rustdds_verif)]
+          crate::verif::sched::point("Writer.pwc.after_wake");
           // Insert data to local HistoryBuffer
           let timestamp =
             self.insert_to_history_buffer(dds_data, write_options.clone(), sequence_number);
@@ -629,6 +633,8 @@ impl Writer {
             return;
           }
 
+          #[cfg(rustdds_verif)]
+          crate::verif::sched::point("Writer.pwc.wait_cmd");
           let wait_until = self.history_buffer.last_change_sequence_number();
           let readers_pending: BTreeSet<_> = self
             .readers
@@ -1009,6 +1015,8 @@ impl Writer {
         }
 
         let my_topic = self.my_topic_name.clone(); // for debugging
+        #[cfg(rustdds_verif)]
+        crate::verif::sched::point("Writer.acknack.before_waiters");
         self.update_ack_waiters(reader_guid, Some(an.reader_sn_state.base()));
 
         if let Some(reader_proxy) = self.lookup_reader_proxy_mut(reader_guid) {
